@@ -174,7 +174,10 @@ class GroupMachine(Machine):
     def generate(self, rng, tier):
         gname = rng.choice(list(GROUPS))
         cls = GROUPS[gname][0]
-        cfg = {"group": gname, "pool": 6, "initial": rng.randint(0, 4), "via_ctor": rng.random() < 0.5}
+        cfg = {"group": gname, "pool": 6, "initial": rng.randint(0, 4), "via_ctor": rng.random() < 0.5,
+               "ctor_as": rng.choice(["list", "list", "tuple", "generator"]),
+               # the group node itself sits somewhere in the scene (members live in its frame)
+               "gtransform": rng.choice([None, None, [round(rng.uniform(-1, 1), 3) for _ in range(3)] + [round(rng.uniform(-80, 80), 1)]])}
         ops = []
         if gname == "BolometerCamera":
             # the camera accepts BolometerFoil and BolometerIRVB members
@@ -289,6 +292,13 @@ class GroupMachine(Machine):
         o.quiet = True
         return o
 
+    def _gtransform(self, cfg):
+        g = cfg.get("gtransform")
+        if not g:
+            return None
+        from raysect.core import rotate_y
+        return translate(g[0], g[1], g[2]) * rotate_y(g[3])
+
     def start(self, cfg, env):
         c = Ctx()
         c.gname = cfg["group"]
@@ -309,13 +319,16 @@ class GroupMachine(Machine):
         c.attrs = [] if c.is_cam else discover(c.cls)
         init = list(range(cfg["initial"]))
         if c.is_cam:
-            c.group = BolometerCamera(parent=c.world, name="cam")
+            c.group = BolometerCamera(parent=c.world, name="cam")      # (its slits hang under the world: the camera stays at the origin)
             for i in init:
                 c.group.add_foil_detector(c.pool[i])
         elif cfg.get("via_ctor"):
-            c.group = c.cls(parent=c.world, name="grp", observers=[c.pool[i] for i in init])
+            members = [c.pool[i] for i in init]
+            how = cfg.get("ctor_as", "list")
+            c.group = c.cls(parent=c.world, name="grp", transform=self._gtransform(cfg),
+                            observers=tuple(members) if how == "tuple" else ((o for o in members) if how == "generator" else members))
         else:
-            c.group = c.cls(parent=c.world, name="grp")
+            c.group = c.cls(parent=c.world, name="grp", transform=self._gtransform(cfg))
             for i in init:
                 c.group.add_observer(c.pool[i])
         c.members = list(init)                 # model: ordered pool indices
